@@ -70,7 +70,8 @@ class SGD(Optimizer):
                     if self.t > 1:
                         self.momentum_buffer[i] = self.momentum*self.momentum_buffer[i] + (1.0 - self.dampening)*grad
                     else:
-                        self.momentum_buffer.append(grad)
+                        # own copy: the buffer must not share memory with p._grad, which later backward calls accumulate into
+                        self.momentum_buffer.append(np.array(grad, copy=True))
                 
                     # Nesterov
                     if self.nesterov:
